@@ -89,6 +89,7 @@ func c13(r *lp.Run) {
 	r.SetRule("every conv.XToString/ToX pair and every json.EncodeX/DecodeX pair: exhaustive 8- and 16-bit integers and booleans; boundary (0, ±1, min, max, powers of two and ten ±1) + random 32/64-bit integers; random float bit patterns + shortest-decimal edge cases (1e-11, 0.1+0.2, 5e-324, max, 2^53±1, -0); random instants over years 0–9999 in several zones; random UUID / IPv4 / IPv6 / MAC (6, 8, 20 bytes) / URL; durations (boundaries + random at every magnitude). Integer formatting and parsing are also compared with the Lean model of strconv (IntRT) line by line, the parser on hostile strings. non-trivial = distinct (helper, value)")
 	c := &c13ctx{r: r}
 	rng := r.Rng.Fork(13)
+	c13Generated(r)
 
 	// ---- integers: exhaustive small widths ----
 	for v := math.MinInt16; v <= math.MaxInt16; v++ {
